@@ -1033,10 +1033,29 @@ impl Databases {
         members.len()
     }
 
+    fn lock_databases_for_update(
+        &self,
+    ) -> std::sync::RwLockWriteGuard<'_, HashMap<String, Database>> {
+        // Under a scheduling harness a task must never block while it holds the baton
+        #[cfg(feature = "verif")]
+        loop {
+            match self.map.try_write() {
+                Ok(guard) => return guard,
+                Err(std::sync::TryLockError::Poisoned(_)) => break,
+                Err(std::sync::TryLockError::WouldBlock) => {
+                    if !crate::verif::yield_blocked("blocked.databases") {
+                        break;
+                    }
+                }
+            }
+        }
+        self.map.write().unwrap()
+    }
+
     pub fn add_database(&self, database: Database) -> Response {
         let db_name = database.name.to_string();
         log::debug!("add_database {}", db_name);
-        let mut dbs = self.map.write().unwrap();
+        let mut dbs = self.lock_databases_for_update();
         match dbs.get(&database.name.to_string()) {
             None => {
                 let mut id_name_db_map = self.id_name_db_map.write().unwrap();
